@@ -869,7 +869,7 @@ impl Sim {
                 self.parents[slot] = None;
                 self.op();
             }
-            Step::PreSpawn { client, slot, kill, gap, early } => {
+            Step::PreSpawn { client, slot, kill, gap, early, refer } => {
                 if !self.cfg.prespawn || client >= nclients || slot >= nslots || !self.clients[client].connected {
                     return;
                 }
@@ -921,6 +921,14 @@ impl Sim {
                 } else {
                     self.prespawned[client][slot] = Some(local);
                     self.flags.insert("prespawn");
+                }
+                if let Some(r) = refer {
+                    if self.cfg.refs && r < nslots && r != slot && self.slots[r].is_some() {
+                        if self.refs[r].is_some() {
+                            self.flags.insert("prespawn_referenced_by_mutation_in_same_tick");
+                        }
+                        self.step(&Step::SetRef { slot: r, target: slot });
+                    }
                 }
             }
             Step::Vis { client, slot, visible } => {
